@@ -162,6 +162,7 @@ const (
 	ActCut                // apply; deliver only CutAt bytes of the response, then CutMode
 	ActIgnore             // read the request, never answer, keep the connection open
 	ActErrorApply         // apply, but answer with Code (e.g. RequestTimedOut after append)
+	ActSplit              // deliver CutAt bytes of the response, pause for SplitPause, deliver the rest; the connection stays healthy
 )
 
 type Action struct {
@@ -170,6 +171,9 @@ type Action struct {
 	CutAt   int
 	CutMode fakenet.CutMode
 	Delay   time.Duration
+	// ErrorBody (with ActCut / ActSplit): do not apply, the response carries Code like ActError.
+	ErrorBody  bool
+	SplitPause time.Duration
 	// Async answers from a separate goroutine after Delay (allows reordering).
 	Async bool
 	// Mutate edits the response value before it is encoded.
@@ -571,7 +575,7 @@ func (c *Cluster) handle(b *Broker, s *fakenet.Conn, st *connState, payload []by
 		return true
 	}
 	var resp map[string]any
-	if act.Kind == ActError {
+	if act.Kind == ActError || ((act.Kind == ActCut || act.Kind == ActSplit) && act.ErrorBody) {
 		resp = c.errorResponse(rc, act.Code)
 		ev.Fate, ev.Code = FateRejected, act.Code
 	} else {
@@ -613,6 +617,21 @@ func (c *Cluster) handle(b *Broker, s *fakenet.Conn, st *connState, payload []by
 			ev.RespStart = s.Sent()
 			ev.RespEnd = ev.RespStart
 			return false
+		case ActSplit:
+			k := act.CutAt
+			if k > len(frame) {
+				k = len(frame)
+			}
+			ev.RespStart = s.Sent()
+			ev.RespSeq = core.Tick()
+			s.Write(frame[:k])
+			time.Sleep(act.SplitPause)
+			s.Write(frame[k:])
+			ev.RespEnd = ev.RespStart + int64(len(frame))
+			if ev.Fate == "" {
+				ev.Fate = FateApplied
+			}
+			return true
 		case ActCut:
 			ev.RespStart = s.Sent()
 			k := act.CutAt
